@@ -175,7 +175,7 @@ def stream_c19(ctx):
         if accepted and not allowed:
             res["I"].append({"stream": "rustc-probes:C19", "fingerprint": f"{parts[0]}-{m}-with-{kk}-key-{hk}-hasher",
                              "what": f"{p['ty']}: {m} is accepted by rustc although the key ({kk}) or hasher ({hk}) is not {m}",
-                             "probe_file": p["path"], "source": open(p["path"]).read()[-200:]})
+                             "probe_file": p["path"], "source": open(p["path"]).read()})
         if preds and i < len(preds):
             want = (preds[i] == "yes")
             if want != accepted:
